@@ -2,7 +2,7 @@
    Models: Audit (histories of tasks over a persistent record store) and Json (the record schema as tokens and bytes). *)
 From Coq Require Import List Ascii String Arith Bool Lia.
 Import ListNotations.
-From SP Require Import Skel Gen Expected Str PathLex Audit Json JsonProofs.
+From SP Require Import Skel Gen Expected Str PathLex Audit Json JsonProofs JsonBytes.
 Notation length := List.length.
 
 (* T1: an IP created for an existing file loads <path>.audit.json; the audit file is written before the outputs are
@@ -47,10 +47,21 @@ Theorem C11_roundtrip_strings : forall (s rest : str), Forall is_ascii7 s ->
   unescape (S (length s)) (escape s ++ dq :: rest)%list = Some (s, rest).
 Proof. exact JsonProofs.unescape_escape. Qed.
 
-(* PARTIAL: the composition on bytes -- decode (jrender 0 r) = Some r for every r -- is not proved in general (the lexer's
-   treatment of the MarshalIndent layout is validated by the correspondence with encoding/json on every run); one instance: *)
-Theorem C11_roundtrip_bytes_example : decode (jrender 0 ex_rec) = Some ex_rec.
-Proof. exact JsonProofs.decode_render_example. Qed.
+(* the composition on bytes: the lexer reads the MarshalIndent rendering of a record tree, at any nesting depth, as exactly
+   the record's tokens ... *)
+Theorem C11_lexer_reads_rendering : forall (r : jrec), ascii_rec r -> forall (d : nat) (toks : list jtok),
+  lrun (toks, MNorm) (jrender d r) = (rev (ptoks r) ++ toks, MNorm)%list.
+Proof. exact JsonBytes.lexes_jrender. Qed.
+
+(* ... and so the bytes written for a record tree decode to that record tree: every tree, every depth, every map, every
+   string of 7-bit characters (bytes >= 0x80 belong to UTF-8 sequences in encoding/json; they are outside the model and
+   covered by the correspondence with the real encoder only) *)
+Theorem C11_roundtrip_bytes : forall (r : jrec), ascii_rec r -> decode (jrender 0 r) = Some r.
+Proof. exact JsonBytes.decode_jrender. Qed.
+
+(* the hypothesis is satisfiable by a record with nested upstream records, maps, and escaped characters *)
+Theorem C11_roundtrip_bytes_example : ascii_rec ex_rec /\ decode (jrender 0 ex_rec) = Some ex_rec.
+Proof. exact (conj JsonBytes.ascii_rec_ex JsonProofs.decode_render_example). Qed.
 
 Print Assumptions C11_code_conforms.
 Print Assumptions C11_resume_keeps_records.
@@ -58,4 +69,6 @@ Print Assumptions C11_resume_same_lineage.
 Print Assumptions C11_store_is_lineage.
 Print Assumptions C11_roundtrip_tokens.
 Print Assumptions C11_roundtrip_strings.
+Print Assumptions C11_lexer_reads_rendering.
+Print Assumptions C11_roundtrip_bytes.
 Print Assumptions C11_roundtrip_bytes_example.
